@@ -22,7 +22,6 @@ import vlib
 
 PROP_FILES = ["Properties_C13.v"]
 BIG = 1 << 20
-SIG_UD_INVALID = "user-data-invalid-type-ends-iteration"
 M64 = (1 << 64) - 1
 DT = {"i4": 1025, "i8": 2049, "i16": 4097, "i24": 6145, "i32": 8193, "i64": 16385,
       "u1": 259, "u4": 1027, "u8": 2051, "u16": 4099, "u24": 6147, "u32": 8195, "u64": 16387,
@@ -200,9 +199,10 @@ def gen_P(ctx):
                 spd, sdf, eps, sumdf = 0, 0, 0, 0
             else:
                 spd, sdf, eps, sumdf = [rng.choice([0, 1, 9, 10, 11, 100, 1000, 1024, 4096]) for _ in range(4)]
+                if rng.random() < 0.06:
+                    eps = rng.choice([100000000, 67108880, 4000000000, 4294967295])     # summary buffer beyond 2^31 bytes / rounding beyond 2^32: refused
+                    dist.add("oversize_sig")
             adf, udf = rng.choice([0, 10, 100, 7]), rng.choice([0, 10, 100, 7])
-            if (DT[dt] >> 8) & 0xff == 24:
-                adf, udf = max(adf, 10), max(udf, 10)       # 24-bit types take no defaults (C16's subject)
             dtv = DT[dt] if rng.random() < 0.9 else rng.choice([0, 5, 8197, 0x10000 | DT["f32"], 0x30000 | DT["i16"], 0x80000 | DT["u8"]])
             pending.append("sig %d %d %d %d %d %d %d %d %d %d %d %s %s" % (gid, src, stype, dtv, rate, spd, sdf, eps, sumdf, adf, udf, s(), s()))
             sig_ids.append(gid)
@@ -210,9 +210,9 @@ def gen_P(ctx):
                 pending.append("sig %d %d 0 %d 1000 0 0 0 0 0 0 e e" % (gid, src if src < 256 else 0, DT["f32"]))
                 dist.add("dup_sig")
         for _ in range(rng.randrange(0, 7)):
-            st = rng.choice([1, 1, 1, 2, 3, 0, 4, 9])
+            st = rng.choice([1, 1, 1, 2, 3, 0, 0, 4, 9])
             if st == 0:
-                dist.add("ud_invalid_type")
+                dist.add("ud_placeholder")
             meta = rng.choice([0, 1, 0x123, 0xfff, 0x1000, 0x1fff, 0xffff])
             r = rng.random()
             if st in (2, 3):
@@ -247,10 +247,13 @@ def gen_P(ctx):
         out.append(("P " + ";".join(pending + qs), sorted(dist) or ["plain"]))
     fixed = []
     # fixed cases: the recorded defect classes and boundaries
-    fixed.append(("P ud 1 1 x07;ud 1 0 e;ud 2 1 x05", ["ud_invalid_type"]))
+    fixed.append(("P ud 1 1 x07;ud 1 0 e;ud 2 1 x05", ["ud_placeholder"]))
+    fixed.append(("P ud 9 0 g100.3;ud 65535 0 -;ud 3 2 p5.1;ud 4 0 e;ud 5 0 e;ud 6 3 e", ["ud_placeholder"]))
     fixed.append(("P src 3 g%d.1 e e e e;src 4 g%d.1 e e e e;src 4 e e e e g%d.2" % (BIG - 2, BIG - 1, BIG - 2), ["bigstr"]))
     fixed.append(("P sig 1 0 0 8196 1000 0 0 0 0 0 0 g%d.1 -;sig 1 0 0 8196 1000 0 0 0 0 0 0 g%d.1 -;fsr 1;q 1" % (BIG - 1, BIG - 2), ["bigstr"]))
     fixed.append(("P ud 1 2 -;ud 2 3 -;ud 3 1 -;ud 4 0 -", ["ud_null_string"]))
+    fixed.append(("P sig 1 0 0 8196 1000 0 0 100000000 0 0 0 e e;fsr 1;sig 1 0 0 8196 1000 0 0 0 0 0 0 p3.1 e;fsr 1;q 1", ["oversize_sig"]))
+    fixed.append(("P sig 1 0 0 8196 1000 4294967295 1024 0 0 0 0 e e;sig 2 0 0 2051 1000 0 4294967295 0 0 0 0 e e;sig 3 0 0 6145 1000 0 0 0 0 3 3 e e;q 1;q 2;q 3", ["oversize_sig"]))
     return fixed + out
 
 
@@ -274,6 +277,7 @@ def oracle_P(script, impl):
     srcs = {0: tuple(x.encode() for x in srcs[0])}
     sigs = {0: None}
     uds = []
+    nud_chunks = 0
     for op, rc in zip(ops, rcs):
         t = op.split()
         if t[0] == "q":
@@ -303,13 +307,12 @@ def oracle_P(script, impl):
             meta, st = int(t[1]), int(t[2])
             if ok:
                 b = gen(t[3])
-                if st == 0:
-                    data = b""
-                elif st == 1:
-                    data = b or b""
-                else:
-                    data = cstr(b) + b"\0"
-                uds.append((meta & 0xfff, st, data))
+                nud_chunks += 1
+                if st == 1:
+                    uds.append((meta & 0xfff, st, b or b""))
+                elif st in (2, 3):
+                    uds.append((meta & 0xfff, st, cstr(b) + b"\0"))
+                # st == 0: an accepted placeholder chunk, not an item
         elif t[0] in ("fsr", "utc", "omit", "anno"):
             gid = int(t[1])
             if ok and gid not in sigs:
@@ -319,9 +322,9 @@ def oracle_P(script, impl):
     lsrc = [e for e in log if e.startswith("1:")]
     lsig = [e for e in log if e.startswith("2:")]
     lud = [e for e in log if e.startswith("64:")]
-    if len(lsrc) != len(srcs) or len(lsig) != len(sigs) or len(lud) != len(uds) + 1:
+    if len(lsrc) != len(srcs) or len(lsig) != len(sigs) or len(lud) != nud_chunks + 1:
         bad.append((None, "definition log has %d/%d/%d source/signal/user-data chunks for %d/%d/%d accepted (+ reserved)" % (
-            len(lsrc), len(lsig), len(lud), len(srcs), len(sigs), len(uds))))
+            len(lsrc), len(lsig), len(lud), len(srcs), len(sigs), nud_chunks)))
     if sec.get("open") != ["0"]:
         bad.append((None, "jls_rd_open failed: %s" % sec.get("open")))
         return bad
@@ -346,8 +349,7 @@ def oracle_P(script, impl):
     got = sec.get("ud", [])
     want_ud = ["%d,%d,%s" % (m, st, pb(data)) for (m, st, data) in uds] + ["0"]
     if got != want_ud:
-        sig = SIG_UD_INVALID if any(st == 0 for (_, st, _) in uds) else None
-        bad.append((sig, "user data read back [%s], written [%s]" % (" ".join(got)[:300], " ".join(want_ud)[:300])))
+        bad.append((None, "user data read back [%s], written [%s]" % (" ".join(got)[:300], " ".join(want_ud)[:300])))
     return bad
 
 
@@ -374,7 +376,7 @@ def run_defs(ctx, build=True, variants=("asan", "plain")):
     model = vlib._run_sharded(model_cmd(), lines, vlib.NPROC, 3000)
     nbad = {"cmp": 0, "prop": 0}
     seen_sig = set()
-    stats = {"agree": 0, "disagree": 0, "model_predicted_faults": 0, "oracle_checked": 0, "oracle_violations": 0, "known_class_ud_invalid": 0}
+    stats = {"agree": 0, "disagree": 0, "model_predicted_faults": 0, "oracle_checked": 0, "oracle_violations": 0}
     for variant in variants:
         impl = vlib.run_c(variant, "defs", lines, args=["30"], timeout=3000)
         for l, m, c in zip(lines, model, impl):
@@ -397,8 +399,6 @@ def run_defs(ctx, build=True, variants=("asan", "plain")):
                 stats["oracle_checked"] += 1
                 for sig, what in oracle_P(l, c):
                     stats["oracle_violations"] += 1
-                    if sig == SIG_UD_INVALID:
-                        stats["known_class_ud_invalid"] += 1
                     if sig is not None:
                         if sig in seen_sig:
                             continue              # one replay per recorded defect class
@@ -418,7 +418,7 @@ def run_defs(ctx, build=True, variants=("asan", "plain")):
                        "{00,1f,41,ff} up to length 5 (6 thorough) x byte after the payload {00,1f,41} read as three strings, random op sequences over "
                        "rd_u8/u16/u32/skip/str, source/signal payload shapes truncated at every length; P = programs of 0..5 sources (ids 0,1..255,256,300,65535, duplicates), "
                        "0..5 signals (all 15 types + invalid codes, FSR/VSR/invalid, undefined sources, duplicates), user data (types 0..3 and invalid, tags beyond 12 bits, "
-                       "NULL/empty/binary/string payloads), fsr/annotation/utc/omit calls on defined and undefined ids, all shuffled; compared: return codes, the "
+                       "placeholders of type 0 between items, NULL/empty/binary/string payloads), fsr/annotation/utc/omit calls on defined and undefined ids, all shuffled; compared: return codes, the "
                        "file's definition chunks (tag, meta, payload bytes), sources, signals, single-signal queries, user data; the property itself is "
                        "re-evaluated on the implementation's output in python; distinct = (build, line)").strip(" |")
     return stats
